@@ -9,7 +9,8 @@ PROP = dict(
                        "finished_only_when_tree_done", "no_fetch_after_finish", "every_built_request_fetched_before_pass_end",
                        "in_flight_le_tokens", "reactor_idle_at_quiescence", "wellformed_at_stage_boundaries",
                        "seed_in_one_place_at_a_time", "attempts_le_max_retry_plus_1", "redirect_chain_and_asset_depth_bounds",
-                       "accepted_responses_in_warc_when_seed_finished", "crawl_never_wedged_with_seeds_in_flight", "no_seed_fetched_beyond_max_hops (depth along the via chain, through the queue)"]),
+                       "accepted_responses_in_warc_when_seed_finished", "crawl_never_wedged_with_seeds_in_flight", "no_seed_fetched_beyond_max_hops (depth along the via chain, through the queue)",
+                       "queue_receives_one_finish_report_per_row_and_a_reported_row_is_out_of_the_pipeline (reports counted at the queue's own finisher: those of the pipeline's finisher and those of the queue's consumer for rows that are not URLs; no offer/insert/stage hook/fetch of a row after its report)"]),
     ],
     partial="Go scheduler / channel runtime are taken to implement the interleaving semantics of the LTS (channels as bags: "
             "FIFO order is not needed by any theorem). Termination (an explicit bound on the length of every execution) is proved for "
@@ -21,8 +22,11 @@ PROP = dict(
                  "queue row ids are pairwise distinct (UNIQUE primary key of lq.db)"],
     level_text="Theorems over ALL label sequences of the pipeline LTS (every interleaving of reactor, stage workers and finisher for any "
                "worker count, every site behaviour through per-pass oracles): no panic, finished at most once and only with no pending "
-               "node, conservation of queue rows, token accounting, deadlock freedom, stuck => all finished exactly once, every execution finite with an explicit bound (domains-crawl off); per seed: no stage panics, well-formed at every boundary, Finish iff nothing pending, no URL fetched by two nodes. Tied to the "
+               "node, conservation of queue rows, token accounting, deadlock freedom, stuck => all finished exactly once, every execution finite with an explicit bound (domains-crawl off); "
+               "at the queue's side (the list of finish reports along an execution, sent by the finisher or - for a row whose text is not a URL - at once by the queue's own consumer): no row reported twice, "
+               "exactly once each at rest, a reported row never again queued / tracked / in a channel / reported, a row finished at once never in the pipeline before or after; per seed: no stage panics, well-formed at every boundary, Finish iff nothing pending, no URL fetched by two nodes. Tied to the "
                "code twice: (1) the real reactor/preprocessor/postprocessor/finisher workers replayed pass by pass against the stage "
                "model; (2) whole real crawls (controler.Start/Stop, local queue, WARC writer, origin server, perturbed schedules, "
-               "W in 1..4, asset concurrency 1..3) whose hook-event traces are replayed through PipeLts.step.",
+               "W in 1..4, asset concurrency 1..3, queue rows that are not URLs mixed among the seeds) whose hook-event traces are replayed through PipeLts.step; finish reports "
+               "are counted where the queue receives them.",
 )
